@@ -1,5 +1,6 @@
 import SioVerif.Gen.Consts
 import SioVerif.Lemmas.SioCodec
+import SioVerif.Model.Gate
 /-
   C02 — Per-emitter order is preserved and binary frames are never interleaved.
 
@@ -94,6 +95,146 @@ theorem blocks_reassemble (J : Sio.Oracle) (maxAtt : Nat) (r : Sio.Pending) (att
     (hr : 0 < r.remaining) (hl : (atts.length : Int) = r.remaining) :
     Sio.addMany J maxAtt (some r) atts = none := by
   exact Sio.pending_finishes J maxAtt (r.remaining.toNat - 1) r atts (by omega) (by omega)
+
+/-! ### the stream checker run on the observed wire
+
+  Frames of the rig's workload carry (emitter, sequence number, index within the block, block size).
+  `checkStream` is the reference decoder of the correspondence check: it accepts a frame stream iff
+  it is a concatenation of whole canonical blocks in which every emitter's sequence numbers count up
+  from the expected value. `checkStream_blocks` proves that it accepts every stream the model can
+  put on the wire, so a rejection of the observed wire is a disagreement with the model. -/
+
+structure Fr where
+  e : Nat
+  s : Nat
+  i : Nat
+  t : Nat
+deriving Repr, DecidableEq
+
+/-- the frames of the block (e, s) with k attachments: indices 0..k, size k+1 -/
+def canon (e s k : Nat) : List Fr := (List.range (k + 1)).map fun i => ⟨e, s, i, k + 1⟩
+
+abbrev Next := List (Nat × Nat)
+
+def Next.get (n : Next) (e : Nat) : Nat := ((n.find? (·.1 == e)).map (·.2)).getD 0
+def Next.set (n : Next) (e v : Nat) : Next := (e, v) :: n
+
+def checkStream : Nat → Next → List Fr → Bool
+  | _, _, [] => true
+  | 0, _, _ :: _ => false
+  | fuel + 1, n, f :: rest =>
+    f.i == 0 && f.t ≥ 1 && f.s == n.get f.e &&
+    rest.take (f.t - 1) == (canon f.e f.s (f.t - 1)).tail &&
+    checkStream fuel (n.set f.e (f.s + 1)) (rest.drop (f.t - 1))
+
+/-- blocks (emitter, seq, attachments) in which each emitter counts up from what `n` expects -/
+def Ordered : Next → List (Nat × Nat × Nat) → Prop
+  | _, [] => True
+  | n, (e, s, _) :: bs => s = n.get e ∧ Ordered (n.set e (s + 1)) bs
+
+theorem canon_ne (e s k : Nat) : canon e s k = ⟨e, s, 0, k + 1⟩ :: (canon e s k).tail := by
+  simp [canon, List.range_succ_eq_map]
+
+theorem canon_tail_length (e s k : Nat) : (canon e s k).tail.length = k := by
+  simp [canon]
+
+theorem checkStream_blocks (bs : List (Nat × Nat × Nat)) : ∀ (n : Next) (fuel : Nat),
+    Ordered n bs → bs.length ≤ fuel →
+    checkStream fuel n (bs.flatMap fun b => canon b.1 b.2.1 b.2.2) = true := by
+  induction bs with
+  | nil => intro n fuel _ _; cases fuel <;> rfl
+  | cons b bs ih =>
+    intro n fuel ho hf
+    obtain ⟨e, s, k⟩ := b
+    obtain ⟨hs, ho'⟩ := ho
+    cases fuel with
+    | zero => simp at hf
+    | succ fuel =>
+      simp only [List.flatMap_cons]
+      rw [canon_ne e s k]
+      simp only [List.cons_append, checkStream, Nat.add_sub_cancel]
+      have hl := canon_tail_length e s k
+      have htake : ((canon e s k).tail ++ bs.flatMap fun b => canon b.1 b.2.1 b.2.2).take k = (canon e s k).tail := by
+        rw [List.take_append_of_le_length (by omega), List.take_of_length_le (by omega)]
+      have hdrop : ((canon e s k).tail ++ bs.flatMap fun b => canon b.1 b.2.1 b.2.2).drop k = bs.flatMap fun b => canon b.1 b.2.1 b.2.2 := by
+        rw [List.drop_append_of_le_length (by omega), List.drop_of_length_le (by omega), List.nil_append]
+      rw [htake, hdrop, ih _ fuel ho' (by simpa using hf)]
+      simp [hs]
+
+/-- what the model puts on the wire passes the checker: the add history of canonical blocks, ordered
+    per emitter, flattened -/
+theorem wire_checks (ops : List QOp) (bs : List (Nat × Nat × Nat))
+    (hadd : (qrun {} ops).added.map (·.frames) = bs.map fun b => (canon b.1 b.2.1 b.2.2).map fun f => f.e * 1000000 + f.s * 100 + f.i)
+    (ho : Ordered [] bs) :
+    (qrun {} ops).sent ++ (qrun {} ops).queued = (bs.flatMap fun b => canon b.1 b.2.1 b.2.2).map (fun f => f.e * 1000000 + f.s * 100 + f.i) ∧
+    checkStream bs.length [] (bs.flatMap fun b => canon b.1 b.2.1 b.2.2) = true := by
+  refine ⟨?_, checkStream_blocks bs [] bs.length ho (Nat.le_refl _)⟩
+  rw [wire_is_blocks ops {} rfl, hadd]
+  simp only [List.flatMap, List.map_flatten, List.map_map]
+  rfl
+
+example : checkStream 9 [] (canon 1 0 2 ++ canon 2 0 0 ++ canon 1 1 1) = true := by decide
+example : checkStream 9 [] ([⟨1, 0, 0, 3⟩, ⟨1, 0, 1, 3⟩, ⟨2, 0, 0, 1⟩, ⟨1, 0, 2, 3⟩]) = false := by decide
+example : checkStream 9 [] (canon 1 1 0 ++ canon 1 0 0) = false := by decide
+
+/-! ### the client socket's send gate (emits while the socket connects) -/
+
+open SioVerif.Gate in
+/-- with the atomic gate: in every reachable state, what was handed on followed by what waits is
+    exactly what was emitted, in emission order — nothing stranded elsewhere, nothing overtaken -/
+theorem gate_keeps_order (ops : List Gate.Op) : ∀ s : Gate.St, s.pending = [] → s.out ++ s.buf = s.hist →
+    (Gate.run true s ops).out ++ (Gate.run true s ops).buf = (Gate.run true s ops).hist ∧ (Gate.run true s ops).pending = [] := by
+  induction ops with
+  | nil => intro s hp h; exact ⟨h, hp⟩
+  | cons op ops ih =>
+    intro s hp h
+    simp only [Gate.run, List.foldl_cons]
+    apply ih
+    · cases op <;> simp only [Gate.step, hp, Bool.not_true, Bool.false_eq_true, ↓reduceIte, Bool.true_or, List.find?_nil]
+      all_goals (first | exact hp | (split <;> first | rfl | exact hp))
+    · cases op with
+      | emit p =>
+        simp only [Gate.step, Bool.not_true, Bool.false_eq_true, ↓reduceIte]
+        split
+        · rename_i hc
+          simp only [Bool.and_eq_true, List.isEmpty_iff] at hc
+          simp only [hc.2, List.append_nil] at h ⊢
+          rw [h]
+        · simp only [← List.append_assoc, h]
+      | decide g p => simpa [Gate.step] using h
+      | act g => simpa [Gate.step, hp] using h
+      | setConnected => simpa [Gate.step] using h
+      | flush =>
+        simp only [Gate.step]
+        split
+        · simpa using h
+        · exact h
+      | disconnect => simpa [Gate.step] using h
+
+open SioVerif.Gate in
+/-- once connected and flushed nothing waits: everything emitted so far has been handed on, in order -/
+theorem gate_flushed (ops : List Gate.Op) :
+    (Gate.run true {} (ops ++ [.setConnected, .flush])).out = (Gate.run true {} (ops ++ [.setConnected, .flush])).hist := by
+  have h := (gate_keeps_order (ops ++ [.setConnected, .flush]) {} rfl rfl).1
+  have hb : (Gate.run true {} (ops ++ [.setConnected, .flush])).buf = [] := by
+    simp [Gate.run, List.foldl_append, Gate.step]
+  rw [hb, List.append_nil] at h
+  exact h
+
+/-- the gate of the source is the atomic one (read from client_socket.go by the translator) -/
+theorem gate_is_atomic : Gen.sioClientGateAtomic = true := by decide
+
+/-- why it matters: with the state read first and acted upon later (the code before finding D37) a
+    packet overtakes the buffered one, and another is stranded in the buffer of a connected socket -/
+theorem split_gate_reorders :
+    (Gate.run false {} [.decide 1 10, .act 1, .setConnected, .decide 1 11, .act 1, .flush]).out = [11, 10] := by decide
+theorem split_gate_strands :
+    let s := Gate.run false {} [.decide 1 10, .setConnected, .flush, .act 1]
+    s.connected = true ∧ s.out = [] ∧ s.buf = [10] := by decide
+
+/-- every sender hands all frames of a packet to the queue in one call, and the queue appends them in
+    one critical section (the atomicity `qstep`'s `add` assumes; read from the source) -/
+theorem add_is_one_step : Gen.sioSendPathSingleAdd = true := by decide
 
 /-- the send queue's signal channel is buffered (no frame waits for unrelated traffic, C19) -/
 theorem send_queue_capacity : Gen.chanPacketQueueReady = 1 := by decide
